@@ -47,6 +47,36 @@ def read_all(reader):
     return out, None
 
 
+def read_pattern(reader, pattern):
+    """the same iteration, consumed the ways applications do: 'for' (one loop), 'next-for' (take the header record with
+    next(), then loop), 'two-loops' (leave a first loop after two records, resume in a second one), 'next-only'"""
+    out = []
+    try:
+        if pattern == 'next-for':
+            out.append(next(reader))
+            for r in reader:
+                out.append(r)
+        elif pattern == 'two-loops':
+            for r in reader:
+                out.append(r)
+                if len(out) == 2:
+                    break
+            for r in reader:
+                out.append(r)
+        elif pattern == 'next-only':
+            it = iter(reader)
+            while True:
+                out.append(next(it))
+        else:
+            for r in reader:
+                out.append(r)
+    except StopIteration:
+        return out, None
+    except Exception as ex:  # noqa
+        return out, ex
+    return out, None
+
+
 class KeepOpen(io.BytesIO):
     def close(self):
         pass
